@@ -339,3 +339,36 @@ Definition x_amb {A} (n : nat) : machine A A :=
            else (choice, [], Cont)
        | _ => (choice, [], Cont)
        end).
+
+(* ------------------------------------------------------------- gates ----- *)
+(* operators/_takeuntil.py: source 0 and the other observable 1 are subscribed in
+   that order; the first element of the other one completes the output, its
+   completion is ignored, its error is passed on *)
+Definition x_take_until {A} : machine A A :=
+  Machine (tt, [CSub 0%nat; CSub 1%nat], Cont)
+    (fun s _ i =>
+       match i with
+       | ISrc O (Next x) => (s, [CEmit x], Cont)
+       | ISrc O (Err e) => (s, [], Fail e)
+       | ISrc O Done => (s, [], Complete)
+       | ISrc (S _) (Next _) => (s, [], Complete)
+       | ISrc (S _) (Err e) => (s, [], Fail e)
+       | ISrc (S _) Done => (s, [], Cont)
+       | _ => (s, [], Cont)
+       end).
+
+(* operators/_skipuntil.py: state is_open; the other observable (1) opens the gate
+   with its first element and is unsubscribed at once; a source completing while
+   the gate is closed completes nothing *)
+Definition x_skip_until {A} : machine A A :=
+  Machine (false, [CSub 0%nat; CSub 1%nat], Cont)
+    (fun is_open _ i =>
+       match i with
+       | ISrc O (Next x) => (is_open, if is_open then [CEmit x] else [], Cont)
+       | ISrc O (Err e) => (is_open, [], Fail e)
+       | ISrc O Done => (is_open, [], if is_open then Complete else Cont)
+       | ISrc (S _) (Next _) => (true, [CUnsub 1%nat], Cont)
+       | ISrc (S _) (Err e) => (is_open, [], Fail e)
+       | ISrc (S _) Done => (is_open, [CUnsub 1%nat], Cont)
+       | _ => (is_open, [], Cont)
+       end).
